@@ -18,11 +18,12 @@ import time as _time
 from concurrent.futures import ThreadPoolExecutor
 
 from harness.common import coq
+from harness.translate import restoreshape
 
 ID = 'C20'
 PROPS = 'theories/Props/C20.v'
 MODEL_TARGETS = ['theories/C20/Run.vo']
-TRANSLATORS = []
+TRANSLATORS = [restoreshape.translate]
 TIE = ('correspondence by vm_compute on generated pairs of configurations (error, flags and the GET documents after the '
        'restore, for /ports, /device, /devices, /peripherals)')
 ALLOWED_AXIOMS = []
@@ -338,7 +339,7 @@ def gen_mutation(rng, kind, idx):
     if kind == 'bad_device_name':
         return [['device', ['set', 0, rng.choice(['name', 'display_name']), rng.choice(['', '1x', 'x' * 70, 5])]]]
     if kind == 'bad_slave':
-        k = rng.choice(['scheme', 'port', 'host', 'dup', 'nopass', 'both'])
+        k = rng.choice(['scheme', 'port', 'host', 'dup', 'nopass', 'both', 'hash63', 'path'])
         base = {'enabled': False, 'name': 'zz', 'scheme': 'http', 'host': 'h', 'port': 80, 'path': '/', 'admin_password_hash': EMPTY_HASH,
                 'poll_interval': 0, 'listen_enabled': False, 'attrs': {'name': 'zz', 'flags': []}}
         if k == 'scheme':
@@ -347,11 +348,15 @@ def gen_mutation(rng, kind, idx):
             base['port'] = '80'
         elif k == 'host':
             del base['host']
+        elif k == 'hash63':
+            base['admin_password_hash'] = 'b' * 63
+        elif k == 'path':
+            del base['path']
         elif k == 'nopass':
             del base['admin_password_hash']
         elif k == 'both':
             base.update(poll_interval=10, listen_enabled=True)
-        muts = [['devices', ['append', base]]]
+        muts = [['devices', ['insert', idx, base] if rng.random() < 0.6 else ['append', base]]]
         if k == 'dup':
             muts.append(['devices', ['append', dict(base, name='zz2')]])
         return muts
@@ -380,13 +385,86 @@ def gen_job(rng):
     # the peripherals are hardware too: the same on both hubs unless the peripherals document is restored first (it is)
     if rng.random() < 0.08:
         job['target'].insert(0, ['set_setting', 'virtual_ports', rng.choice([0, 1, 2, 3])])
+    # the target may be playing a sequence on a writable hardware port when the restore arrives (the restore sets every
+    # expression, which cancels it); only on ports the target leaves enabled and without expression, and only when the whole
+    # document is going to be restored (a restore rejected before that port's entry rightly leaves the sequence playing, and the
+    # model has no sequences)
+    limited = any(op[0] == 'set_setting' for op in job['target'])
+    for h in hardware:
+        if h['kind'] in ('bool_rw', 'num_rw', 'custom') and rng.random() < 0.2 and not limited:
+            touched = [op for op in job['target'] if op[0] == 'patch_port' and op[1] == h['id'] and ('expression' in op[2] or op[2].get('enabled') is False)]
+            if not touched:
+                vals = [True, False] if h['kind'] == 'bool_rw' else [1, 3]
+                job['target'].append(['patch_sequence', h['id'], {'values': vals, 'delays': [25, 25], 'repeat': 1000}])
+                job['linger_ms'] = 90
     if rng.random() < 0.35:
         kind = rng.choice(MUTATIONS)
         job['mutate'] = gen_mutation(rng, kind, rng.randint(0, 5))
         job['mutation_kind'] = kind
+        job['target'] = [op for op in job['target'] if op[0] != 'patch_sequence']
+        job.pop('linger_ms', None)
         if kind == 'bad_driver' and not any(op[0] == 'post_peripheral' for op in job['source']):
             job['source'].insert(0, ['post_peripheral', {'driver': MOCK_DRIVER, 'dummy_param': 'first', 'name': 'pa'}])
     return job
+
+
+def _slave(name, host, **kw):
+    e = {'enabled': False, 'name': name, 'scheme': 'http', 'host': host, 'port': 80, 'path': '/', 'admin_password_hash': EMPTY_HASH,
+         'poll_interval': 0, 'listen_enabled': False, 'last_sync': -1, 'online': False, 'provisioning': [],
+         'attrs': {'name': name, 'flags': ['listen']}}
+    e.update(kw)
+    return e
+
+
+# one defect of a /devices entry: (label, alteration of the entry); the first group fails the per-entry schema, the second group
+# passes it and fails later (while the device is added)
+SLAVE_DEFECTS = [
+    ('scheme ftp', lambda e: e.update(scheme='ftp')), ('scheme not a string', lambda e: e.update(scheme=5)),
+    ('host missing', lambda e: e.pop('host')), ('port missing', lambda e: e.pop('port')), ('path missing', lambda e: e.pop('path')),
+    ('scheme missing', lambda e: e.pop('scheme')), ('host not a string', lambda e: e.update(host=7)),
+    ('port a string', lambda e: e.update(port='80')), ('port not integral', lambda e: e.update(port=80.5)),
+    ('path null', lambda e: e.update(path=None)), ('hash of 63 characters', lambda e: e.update(admin_password_hash='a' * 63)),
+    ('hash not a string', lambda e: e.update(admin_password_hash=5)), ('password of 33 characters', lambda e: e.update(admin_password='p' * 33)),
+    ('poll_interval a string', lambda e: e.update(poll_interval='10')), ('listen_enabled a number', lambda e: e.update(listen_enabled=1)),
+    ('polling and listening', lambda e: e.update(poll_interval=10, listen_enabled=True)),
+    ('no password', lambda e: e.pop('admin_password_hash')),
+    ('same endpoint as entry 0 or 1', None),
+]
+
+
+def rejection_stream():
+    """every run: /devices documents of three entries with one defect at each position; /peripherals documents with an entry whose
+    driver cannot be loaded / is not a string / whose name is not an identifier at each position; /device documents with one bad
+    attribute.  Only that document is restored (no ports involved: cheap); the switches are observed after the answer."""
+    jobs = []
+    base = [_slave('sa', '10.0.0.1'), _slave('sb', '10.0.0.2', poll_interval=30), _slave('sc', 'sc.local', scheme='https', port=443)]
+    target = [['put_slaves', [_slave('told', '10.9.9.9')]]]
+    for label, alter in SLAVE_DEFECTS:
+        for pos in range(3):
+            doc = json.loads(json.dumps(base))
+            if alter is None:
+                other = doc[0 if pos else 1]
+                doc[pos].update(scheme=other['scheme'], host=other['host'], port=other['port'], path=other['path'])
+            else:
+                alter(doc[pos])
+            jobs.append({'hardware': [], 'source': [], 'target': target, 'restore': ['devices'],
+                         'mutate': [['devices', ['replace', doc]]], 'mutation_kind': 'devices: %s' % label, 'stream': 'rejection'})
+    pbase = [{'driver': MOCK_DRIVER, 'dummy_param': 'a', 'name': 'pa'}, {'driver': MOCK_DRIVER, 'dummy_param': 'b', 'name': 'pb'},
+             {'driver': MOCK_DRIVER, 'dummy_param': 'c', 'name': 'pc'}]
+    ptarget = [['post_peripheral', {'driver': MOCK_DRIVER, 'dummy_param': 't', 'name': 'pt'}]]
+    for label, alter in [('driver cannot be loaded', lambda e: e.update(driver='no.such.Driver')),
+                         ('driver not a string', lambda e: e.update(driver=5)), ('driver missing', lambda e: e.pop('driver')),
+                         ('name not an identifier', lambda e: e.update(name='1 x'))]:
+        for pos in range(3):
+            doc = json.loads(json.dumps(pbase))
+            alter(doc[pos])
+            jobs.append({'hardware': [], 'source': [], 'target': ptarget, 'restore': ['peripherals'],
+                         'mutate': [['peripherals', ['replace', doc]]], 'mutation_kind': 'peripherals: %s' % label, 'stream': 'rejection'})
+    for key, val in [('name', ''), ('name', '1x'), ('name', 'x' * 33), ('name', 5), ('display_name', 'x' * 65), ('display_name', None)]:
+        jobs.append({'hardware': [], 'source': [['patch_device', {'name': 'src'}]], 'target': [['patch_device', {'name': 'tgt', 'admin_password': 'pw'}]],
+                     'restore': ['device'], 'mutate': [['device', ['set', 0, key, val]]], 'mutation_kind': 'device: bad %s' % key,
+                     'stream': 'rejection'})
+    return jobs
 
 
 # ----------------------------------------------------------------------------------------------------------------
@@ -463,9 +541,16 @@ def oracle(job, res):
     mutated = {name for name, _m in (job.get('mutate') or [])}
     put, flags = res['put'], res['flags']
     for name in put:
+        beh = res.get('behaviour', {}).get(name, [True, True])
+        if flags[name] == [True, True] and beh != [True, True]:
+            out.append(({'document': name, 'aspect': 'flags', 'flags': 'observed: polling pass ran=%s event delivered=%s' % tuple(beh)},
+                        'after PUT /%s (%s) the switches read on, but a polling pass ran = %s and a triggered event was delivered = %s' % (
+                            name, put[name][0], beh[0], beh[1])))
         if flags[name] != [True, True]:
             out.append(({'document': name, 'aspect': 'flags', 'flags': 'updating=%s events=%s' % tuple(flags[name])},
-                        'after PUT /%s (%s) polling enabled = %s, event delivery enabled = %s' % (name, put[name][0], flags[name][0], flags[name][1])))
+                        'after PUT /%s (%s: %s) polling enabled = %s, event delivery enabled = %s (observed: a polling pass ran = %s, a '
+                        'triggered event reached a handler = %s)' % (name, put[name][0], json.dumps(put[name][1:])[:160], flags[name][0],
+                                                                     flags[name][1], beh[0], beh[1])))
     # ports
     if 'ports' in put:
         o = put['ports']
@@ -484,7 +569,10 @@ def oracle(job, res):
             if not named and not whole:
                 out.append(({'document': 'ports', 'aspect': 'error-names-entry', 'error': o[2] if o[0] == 'api' else o[1]},
                             'PUT /ports was rejected with %s, which does not name the failing entry' % json.dumps(o[1:])))
-            if 'ports' not in mutated and not (o[0] == 'api' and o[2] == 'too-many-ports'):
+            n_virtual = len([e for e in sent if isinstance(e, dict) and e.get('virtual')]) if isinstance(sent, list) else 0
+            limit = next((op[2] for op in job['target'] if op[0] == 'set_setting' and op[1] == 'virtual_ports'), 1024)
+            does_not_fit = o[0] == 'api' and o[2] == 'too-many-ports' and n_virtual > limit
+            if 'ports' not in mutated and not does_not_fit:
                 out.append(({'document': 'ports', 'aspect': 'valid-backup-rejected', 'error': o[2] if o[0] == 'api' else o[1],
                              'field': (o[3].get('field') if o[0] == 'api' else None)},
                             'PUT /ports rejected an unaltered backup: %s' % json.dumps(o[1:])))
@@ -897,6 +985,7 @@ def check(ctx, res):
     corpus = load_corpus()
     if corpus:
         run_batch(ctx, res, [j for _n, j in corpus], 'c20corpus', labels=[n for n, _j in corpus], do_shrink=False)
+    run_batch(ctx, res, rejection_stream(), 'c20reject', do_shrink=False)
     n = ctx.n(120, 5000)
     done = 0
     while done < n:
